@@ -312,6 +312,189 @@ func orderRule(c *core.Ctx) {
 	c.Decide(ok, "C09-ORDER", "Build#comparators", "", "encoderOrderBy(byLength, byDataCoding)", "Build does not sort by (part count, then coding priority) in that order")
 }
 
+func isNilInstr(i ssa.Instruction) bool {
+	switch x := i.(type) {
+	case *ssa.Call:
+		return x == nil
+	case *ssa.Phi:
+		return x == nil
+	}
+	return false
+}
+
+// filterLoop recognises, in fn, `for _, e := range xs { if e.<field> { acc = append(acc, e) } }` in any of its
+// spellings (continue on !field, if/else) and returns the accumulator: the loop-header phi that starts as an empty
+// slice, is left unchanged on every iteration whose element has field == false and gets exactly that element appended
+// on every iteration whose element has field == true.
+func filterLoop(fn *ssa.Function, field string) *ssa.Phi {
+	for _, h := range fn.Blocks {
+		if h.Comment != "rangeindex.loop" || len(h.Instrs) == 0 {
+			continue
+		}
+		ifi, ok := h.Instrs[len(h.Instrs)-1].(*ssa.If)
+		if !ok {
+			continue
+		}
+		cmp, ok := ifi.Cond.(*ssa.BinOp)
+		if !ok || cmp.Op != token.LSS {
+			continue
+		}
+		ln, ok := cmp.Y.(*ssa.Call)
+		if !ok {
+			continue
+		}
+		if bi, isB := ln.Call.Value.(*ssa.Builtin); !isB || bi.Name() != "len" {
+			continue
+		}
+		xs := ln.Call.Args[0]
+		body := h.Succs[0]
+		// the element and the test on its field
+		bif, ok := body.Instrs[len(body.Instrs)-1].(*ssa.If)
+		if !ok {
+			continue
+		}
+		ld, ok := bif.Cond.(*ssa.UnOp)
+		if !ok || ld.Op != token.MUL {
+			continue
+		}
+		base, f, ok := fieldOfAddr(ld.X)
+		if !ok || f.Name() != field {
+			continue
+		}
+		el, ok := base.(*ssa.UnOp)
+		if !ok || el.Op != token.MUL {
+			continue
+		}
+		ia, ok := el.X.(*ssa.IndexAddr)
+		if !ok || ia.X != xs || ia.Index != cmp.X {
+			continue
+		}
+		// polarity of the field on the way to block p (inside the loop)
+		polarity := func(p *ssa.BasicBlock) (val, known bool) {
+			if p == body {
+				if body.Succs[0] == h && body.Succs[1] != h {
+					return true, true
+				}
+				if body.Succs[1] == h && body.Succs[0] != h {
+					return false, true
+				}
+				return false, false
+			}
+			for x := p; x != nil && x.Idom() != nil; x = x.Idom() {
+				if x.Idom() == body {
+					vt, vf := viaEdge(body, x)
+					if vt != vf {
+						return vt, true
+					}
+					return false, false
+				}
+			}
+			return false, false
+		}
+		for _, ins := range h.Instrs {
+			acc, ok := ins.(*ssa.Phi)
+			if !ok {
+				break
+			}
+			if _, isSl := acc.Type().Underlying().(*types.Slice); !isSl {
+				continue
+			}
+			good, kept, dropped := true, 0, 0
+			var check func(e ssa.Value, p *ssa.BasicBlock, depth int)
+			check = func(e ssa.Value, p *ssa.BasicBlock, depth int) {
+				if inner, isPhi := e.(*ssa.Phi); isPhi && inner != acc && depth < 3 && inner.Block() != h {
+					for j, ip := range inner.Block().Preds {
+						check(inner.Edges[j], ip, depth+1)
+					}
+					return
+				}
+				val, known := polarity(p)
+				if !known {
+					good = false
+					return
+				}
+				if !val {
+					if e != ssa.Value(acc) {
+						good = false
+					}
+					dropped++
+					return
+				}
+				call, isC := e.(*ssa.Call)
+				if !isC {
+					good = false
+					return
+				}
+				bi, isB := call.Call.Value.(*ssa.Builtin)
+				if !isB || bi.Name() != "append" || call.Call.Args[0] != ssa.Value(acc) || singleVararg(call.Call.Args[1]) != ssa.Value(el) {
+					good = false
+					return
+				}
+				kept++
+			}
+			for i, p := range h.Preds {
+				e := acc.Edges[i]
+				if h.Dominates(p) {
+					check(e, p, 0)
+					continue
+				}
+				switch x := e.(type) {
+				case *ssa.MakeSlice:
+					if k, isK := constInt(x.Len); !isK || k != 0 {
+						good = false
+					}
+				case *ssa.Const:
+					if !x.IsNil() {
+						good = false
+					}
+				default:
+					good = false
+				}
+			}
+			if good && kept > 0 && dropped > 0 {
+				return acc
+			}
+		}
+	}
+	return nil
+}
+
+// singleVararg: the one element of the variadic slice `new [1]T; [0] = x; slice[:]`.
+func singleVararg(v ssa.Value) ssa.Value {
+	sl, ok := v.(*ssa.Slice)
+	if !ok {
+		return nil
+	}
+	al, ok := sl.X.(*ssa.Alloc)
+	if !ok {
+		return nil
+	}
+	pt, ok := al.Type().Underlying().(*types.Pointer)
+	if !ok {
+		return nil
+	}
+	arr, ok := pt.Elem().Underlying().(*types.Array)
+	if !ok || arr.Len() != 1 {
+		return nil
+	}
+	var out ssa.Value
+	n := 0
+	for _, r := range *al.Referrers() {
+		if ia, ok := r.(*ssa.IndexAddr); ok {
+			for _, rr := range *ia.Referrers() {
+				if st, ok := rr.(*ssa.Store); ok && st.Addr == ssa.Value(ia) {
+					out = st.Val
+					n++
+				}
+			}
+		}
+	}
+	if n != 1 {
+		return nil
+	}
+	return out
+}
+
 func returnsConst(b *ssa.BasicBlock, want bool) bool {
 	ret, ok := b.Instrs[len(b.Instrs)-1].(*ssa.Return)
 	if !ok || len(ret.Results) != 1 {
@@ -355,8 +538,19 @@ func flowRule(c *core.Ctx) {
 			}
 		}
 	}
-	before := func(a, b *ssa.Call) bool {
-		if a == nil || b == nil {
+	// the filter as a value: lo.Filter's result, or the accumulator of an explicit loop that appends exactly the
+	// candidates with canEncode
+	var filterV ssa.Value
+	var filterI ssa.Instruction
+	loopPredOK := false
+	if filter != nil {
+		filterV, filterI = filter, filter
+	} else if acc := filterLoop(build, "canEncode"); acc != nil {
+		filterV, filterI = acc, acc
+		loopPredOK = true
+	}
+	before := func(a, b ssa.Instruction) bool {
+		if a == nil || b == nil || isNilInstr(a) || isNilInstr(b) {
 			return false
 		}
 		if a.Block() == b.Block() {
@@ -364,10 +558,10 @@ func flowRule(c *core.Ctx) {
 		}
 		return a.Block().Dominates(b.Block())
 	}
-	c.Decide(before(wait, filter) && before(filter, sortCall), "C09-FLOW", "Build#filter-then-sort", pos, "Wait, then filter the failures, then sort",
+	c.Decide(before(wait, filterI) && before(filterI, sortCall), "C09-FLOW", "Build#filter-then-sort", pos, "Wait, then filter the failures, then sort",
 		"candidates that failed to encode are not removed (after Wait) before sorting: a failed candidate with zero parts would win")
 	// filter predicate: returns item.canEncode
-	predOK := false
+	predOK := loopPredOK
 	if filter != nil {
 		if mc, ok := filter.Call.Args[1].(*ssa.MakeClosure); ok {
 			predOK = closureReturnsField(mc.Fn.(*ssa.Function), "canEncode")
@@ -438,11 +632,11 @@ func flowRule(c *core.Ctx) {
 	var flag ssa.Value
 	flagWhy := "no flag found"
 	emptyAt := func(b *ssa.BasicBlock) bool {
-		if filter == nil {
+		if filterV == nil {
 			return false
 		}
 		for _, f := range pvBuild.FactsAt(b) {
-			d := f.L.Add(pvBuild.LenOf(filter).Scale(-1), -1)
+			d := f.L.Add(pvBuild.LenOf(filterV).Scale(-1), -1)
 			if d.IsConst() && d.C == 0 && !f.NE { // -len >= 0
 				return true
 			}
